@@ -3,11 +3,18 @@ package main
 import (
 	"fmt"
 	"math"
+
+	"github.com/koykov/dyntpl"
 )
 
 // fixed templates that end early or leave per-render state dirty
 var c05Fixed = []TplDef{
 	{Key: "t_region_exit", Src: `a{% jsonquote %}"q"{%= ss %}{% exit %}z{% endjsonquote %}`, KeepFmt: true},
+	// nested counter loops that read the outer counter after the inner loop (the counters' buffer grows on a new
+	// context and has room on a reset one), and one counter loop after another
+	{Key: "t_nested_cloops", Src: `{% for i := 0; i < 3; i++ %}{% for j := 0; j < 2; j++ %}{% for k := 5; k > 3; k-- %}{%= i %}{%= j %}{%= k %},{% endfor %}{%= j %}{% endfor %}{%= i %};{% endfor %}{% for m := 0; m < 2; m++ %}{%= m %}{% endfor %}`, KeepFmt: true},
+	// named modifier arguments whose values are variables that come and go between the uses of the context
+	{Key: "t_kv", Src: `{%= si|vcat({p: x1, q: "z"}, {r: x2}) %}|{%= bv|vcat({s: bv, t: x1}) %}`, KeepFmt: true},
 	{Key: "t_html_open", Src: `{% htmlescape %}<b>{%= ss %}`, KeepFmt: true},
 	{Key: "t_url_err", Src: `{% urlencode %}x y{% include nosuch %}{% endurlencode %}`, KeepFmt: true},
 	{Key: "t_loop_err", Src: `{% for i := 0; i < 3; i++ %}{%= i %}{% for _, v := range lst %}{%= v %}{% include nosuch %}{% endfor %}{% endfor %}`, KeepFmt: true},
@@ -155,6 +162,29 @@ func init() {
 			}
 		}
 		runSessions(r, cases, outputDiffers)
+		// two names given the SAME Go pointer by the caller: a counter tag on one of them changes neither the other name
+		// nor the caller's variable (the counter owns its value from then on)
+		{
+			xi, xl, xb := 5, int64(5), int32(5) // (signed kinds: a counter tag reads an unsigned value as 0 — ConvInt, mirrored in the model)
+			for pi, ptr := range []any{&xi, &xl, &xb} {
+				key, err, pan := regTpl(`{% counter n++ %}[{%= n %}|{%= m %}]{% counter m-2 %}[{%= n %}|{%= m %}]{% counter n+10 %}[{%= n %}|{%= m %}]`, true)
+				if err != nil || pan != "" {
+					r.Internal("C15 shared-pointer template does not parse")
+					break
+				}
+				ctx := dyntpl.NewCtx()
+				ctx.SetStatic("n", ptr)
+				ctx.SetStatic("m", ptr)
+				res := renderSafe(key, ctx)
+				caller := fmt.Sprint(xi, xl, xb)
+				r.Count(fmt.Sprintf("shared-pointer:%d", pi), true)
+				r.Dist["shared-pointer"]++
+				if res.Panic != "" || res.Err != nil || string(res.Out) != "[6|5][6|3][16|3]" || caller != "5 5 5" {
+					r.Violate(fmt.Sprintf("shared-pointer kind=%T out=%s caller=%s", ptr, res.Out, caller), "two variables set from the same pointer: a counter tag on one of them changed the other one or the caller's variable",
+						map[string]any{"pointer_type": fmt.Sprintf("%T", ptr), "output": string(res.Out), "expected": "[6|5][6|3][16|3]", "callers_values_after": caller, "error": res.ErrStr(), "panic": res.Panic})
+				}
+			}
+		}
 		// known finding probe: a ctx variable assigned from a counter aliases the counter's storage
 		probe := &RCase{Tpls: []TplDef{{Key: "p", Src: `{% counter cn = 1 %}{% ctx x = cn %}{% counter cn++ %}{%= x %}`, KeepFmt: true}},
 			// four variables first, so that the slot array is not re-allocated when x is appended (the aliasing is capacity dependent)
